@@ -84,8 +84,8 @@ def _child_verify(i):
                     "otp": otp,
                     "contract": c.name, "target": c.target, "obligation": o.name, "exact_model": bool(getattr(o, "exact_model", True)),
                     "inputs": inputs, "stubs": stubs, "stub_kinds": stub_kinds, "call": native_call(c, res.fs),
-                    "requires": c.requires, "ensures": [list(e) for e in c.ensures], "raises": c.raises,
-                    "raises_only_if": c.raises_only_if, "path": o.detail, "line": o.line,
+                    "requires": c.requires, "ensures": [list(e) for e in c.ensures] + [list(e) for e in c.native_ensures],
+                    "raises": c.raises, "raises_only_if": c.raises_only_if, "path": o.detail, "line": o.line,
                     "model_excerpt": str(o.model)[:4000],
                 }
             except Exception:
@@ -159,7 +159,7 @@ def fuzz_job(c, fs, schema, param_keys, ghost_kinds, seed, budget_s, numeric_key
                 params[name] = {"kind": "none", "nullable": True}
     return {
         "repo": repo_path(),
-        "contract": {"name": c.name, "target": c.target, "requires": c.requires, "ensures": [list(e) for e in c.ensures],
+        "contract": {"name": c.name, "target": c.target, "requires": c.requires, "ensures": [list(e) for e in c.ensures] + [list(e) for e in c.native_ensures],
                      "raises": c.raises, "raises_only_if": c.raises_only_if, "call": native_call(c, fs), "params": params},
         "schema": schema_json(schema), "literals": source_literals(fs, c), "param_keys": sorted(param_keys),
         "stubs": {k: [v[1], kind_json(v[2]), v[3]] for k, v in c.stubs.items()},
